@@ -180,6 +180,14 @@ func (x *Exec) specCall(env *evalEnv, n *ast.CallExpr) (Val, bool) {
 		x.st = env.old
 		defer func() { x.st = saved }()
 		return x.expr(env, n.Args[0]), true
+	case "at_head":
+		if x.loopHead == nil {
+			x.fail(n.Pos(), "at_head() only in end_of_body clauses")
+		}
+		saved := x.st
+		x.st = x.loopHead
+		defer func() { x.st = saved }()
+		return x.expr(env, n.Args[0]), true
 	case "before":
 		if x.loopPre == nil {
 			x.fail(n.Pos(), "before() only in loop clauses")
@@ -271,6 +279,30 @@ func (x *Exec) specCall(env *evalEnv, n *ast.CallExpr) (Val, bool) {
 			x.fail(n.Pos(), "backing() of a non-slice")
 		}
 		return Val{x.ctx.slBid(a), tInt}, true
+	case "xlog_mapss":
+		mt := types.NewMap(tString, tString)
+		x.ctx.Sort(mt)
+		x.ctx.decl("fun:xlog_mapss", "(declare-fun xlog_mapss (Int Int) Mp_Str_Str)")
+		a := x.expr(env, n.Args[0])
+		k := x.expr(env, n.Args[1])
+		return Val{"(xlog_mapss " + a.S + " " + k.S + ")", mt}, true
+	case "xlog_fn", "xlog_recv":
+		x.ctx.decl("fun:xlog_fn", "(declare-fun xlog_fn (Int) Str)")
+		x.ctx.decl("fun:xlog_recv", "(declare-fun xlog_recv (Int) Int)")
+		a := x.expr(env, n.Args[0])
+		if id.Name == "xlog_fn" {
+			return Val{"(xlog_fn " + a.S + ")", tString}, true
+		}
+		return Val{"(xlog_recv " + a.S + ")", tInt}, true
+	case "xlog_int", "xlog_str":
+		x.ctx.decl("fun:xlog_int", "(declare-fun xlog_int (Int Int) Int)")
+		x.ctx.decl("fun:xlog_str", "(declare-fun xlog_str (Int Int) Str)")
+		a := x.expr(env, n.Args[0])
+		k := x.expr(env, n.Args[1])
+		if id.Name == "xlog_int" {
+			return Val{"(xlog_int " + a.S + " " + k.S + ")", tInt}, true
+		}
+		return Val{"(xlog_str " + a.S + " " + k.S + ")", tString}, true
 	case "iface_val":
 		a := x.expr(env, n.Args[0])
 		return Val{"(ival " + a.S + ")", tInt}, true
@@ -343,12 +375,24 @@ func (x *Exec) specFuncCall(env *evalEnv, n *ast.CallExpr, fn *types.Func) Val {
 	sig := fn.Type().(*types.Signature)
 	unit := x.v.byObj[fn]
 	var args []Val
+	external := fn.Pkg() != nil && !x.v.isRepoPkg(fn.Pkg().Path())
 	for i, a := range n.Args {
 		v := x.expr(env, a)
-		if i < sig.Params().Len() {
+		if i < sig.Params().Len() && !external && !(sig.Variadic() && i >= sig.Params().Len()-1) {
 			v = x.convertTo(v, sig.Params().At(i).Type())
 		}
 		args = append(args, v)
+	}
+	if fn.Pkg() != nil && !x.v.isRepoPkg(fn.Pkg().Path()) {
+		// pure library function used in a spec: the same uninterpreted symbol the code model uses
+		name := fmt.Sprintf("%s_%s_0", fn.Pkg().Name(), fn.Name())
+		if fn.Pkg().Path() == "fmt" {
+			name = "fmt_" + fn.Name()
+		}
+		if t, ok := x.pureExt(name, args, sig.Results().At(0).Type()); ok {
+			return Val{t, sig.Results().At(0).Type()}
+		}
+		x.fail(n.Pos(), "UNSUPPORTED external call %s in spec", fn.FullName())
 	}
 	if sig.Results().Len() != 1 {
 		x.fail(n.Pos(), "spec function %s must have one result", fn.Name())
@@ -401,6 +445,16 @@ func (x *Exec) retTerm(env *evalEnv, stmts []ast.Stmt, rest string, hasRest bool
 			return "", false
 		}
 		return x.expr(env, s.Results[0]).S, true
+	case *ast.AssignStmt:
+		// x := e  /  x = e  with a single identifier: substitution
+		if len(s.Lhs) == 1 && len(s.Rhs) == 1 {
+			if id, ok := s.Lhs[0].(*ast.Ident); ok && (s.Tok == token.DEFINE || s.Tok == token.ASSIGN) {
+				v := x.expr(env, s.Rhs[0])
+				e2 := env.withBound(id.Name, v)
+				return x.retTerm(e2, stmts[1:], rest, hasRest)
+			}
+		}
+		return "", false
 	case *ast.BlockStmt:
 		after, ok := x.retTerm(env, stmts[1:], rest, hasRest)
 		return x.retTerm(env, s.List, after, ok)
